@@ -170,14 +170,17 @@ func NewPESHeader(pesBytes []byte) (PESHeader, error) {
 	pes := new(pESHeader)
 	var err error
 
-	if CheckLength(pesBytes, "PES", 7) {
+	// six bytes are a whole PES packet start for the stream ids without optional header
+	if CheckLength(pesBytes, "PES", 6) {
 
 		pes.packetStartCodePrefix = uint32(pesBytes[0])<<16 | uint32(pesBytes[1])<<8 | uint32(pesBytes[2])
 
 		pes.streamId = uint8(pesBytes[3])
 
 		pes.pesPacketLength = uint16(pesBytes[4])<<8 | uint16(pesBytes[5])
-		pes.dataAlignment = pesBytes[6]&0x04 != 0
+		if len(pesBytes) > 6 {
+			pes.dataAlignment = pesBytes[6]&0x04 != 0
+		}
 		dataStartIndex := 6
 
 		if pes.optionalFieldsExist() && CheckLength(pesBytes, "Optional Fields", 9) {
